@@ -1,0 +1,22 @@
+//go:build !verif
+
+package interp
+
+// Verification hooks (see verif_on.go). Without the build tag "verif"
+// they are empty and compile to nothing.
+
+const (
+	vStart = iota
+	vExit
+	vSpawn
+	vRecv
+	vSend
+	vSendPost
+	vErr
+	vSet
+	vReturn
+)
+
+func vpoint(l *lexer, kind int) {}
+func vsend(l *lexer)            {}
+func vsendPost(l *lexer)        {}
